@@ -256,6 +256,21 @@ func crashPlacements(rolesWanted []string) []scn {
 						steps = append(steps, "claimpaid", "csv")
 					}
 					out = append(out, scn{role: role, steps: steps})
+					// the same crash, and a local service that fails ONCE while the node recovers
+					if !isTaker(role) {
+						for _, f := range []string{"height." + chain, "label", "send", "balance", "getpayreq"} {
+							blocks := "blocks btc 1008"
+							if chain == "lbtc" {
+								blocks = "blocks lbtc 10080"
+							}
+							rest := base[i+1:]
+							if len(rest) > 0 {
+								rest = rest[:len(rest)-1] // not the honest ending (the peer paying): the refund path
+							}
+							st := cat(base[:i], []string{fmt.Sprintf("crash %d", k), base[i], "fault " + f + " down", "restart", "clearfaults"}, rest, []string{blocks, "csv", "restart", "csv"})
+							out = append(out, scn{role: role, steps: st})
+						}
+					}
 				}
 			}
 		}
